@@ -20,6 +20,7 @@ ROLE_PATTERNS = [
     (r"^(self\.formatter|self)\.format_int_value\((t|self\.d)\.cap\)$", "capacity"),
     (r"^(self\.formatter|self)\.format_int_value\((t|self\.d)\.nbits\(\)\)$", "nbits"),
     (r"^(self\.formatter|self)\.format_int_value\((t|self\.d)\.nfields\(\)\)$", "nfields"),
+    (r"^(self\.formatter|self)\.format_int_value\((t|self\.d)\.nbytes\(\)\)$", "nbytes"),
     (r"^(self\.formatter|self)\.format_int_value\((t|self\.d)\.number\)$", "field_number"),
     (r"^(self\.formatter|self)\.format_processor\((t|self\.d)\.element_type\)$", "element_processor"),
     (r"^(self\.formatter|self)\.format_processor\((t|self\.d)\.type\)$", "type_processor"),
